@@ -210,7 +210,7 @@ def warm(extra=None):
     return n
 
 
-def warm_refinement_variants():
+def warm_refinement_variants(approx=False):
     """Direct dummy calls of loop_refinement for the argument-type combinations pipelines produce (parent side)."""
     import numpy as np
     from pandora.refinement.refinement import AbstractRefinement
@@ -230,6 +230,11 @@ def warm_refinement_variants():
                         cv, np.zeros((3, 3), np.float32), np.zeros((3, 3), mdt), dm, dm + 1, 1, "min", meth
                     )
                     n += len(AbstractRefinement.loop_refinement.signatures) - before
+                    if approx:
+                        # every pixel flagged invalid: the kernel touches no cost (safe on dummy data)
+                        AbstractRefinement.loop_approximate_refinement(
+                            cv, np.zeros((3, 3), np.float32), np.ones((3, 3), mdt), dm, dm + 1, 1, "min", meth
+                        )
     return n
 
 
@@ -624,7 +629,7 @@ def _main(check, check_file):
     print(f"[{check.prop}] seed={seed} tier={tier} workers={workers} tree={boot.info().get('tree_hash')}", flush=True)
     nwarm = 0 if getattr(check, "no_warm", False) else warm(getattr(check, "warm_extra", None))
     if getattr(check, "warm_refinement", False):
-        nwarm += warm_refinement_variants()
+        nwarm += warm_refinement_variants(approx=getattr(check, "warm_approx_refinement", False))
     print(f"[{check.prop}] boot+warm {time.time()-t0:.1f}s ({nwarm} signatures)", flush=True)
 
     n = args["n"] or check.budgets[tier]
